@@ -158,6 +158,9 @@ var c15Fixed = []string{
 	"package a\n\nfunc f() {\n\tselect {\n\tcase <-c:\n\t\ta()\n\t// commented\n\t\t\t// deeper\n",
 	"package a\n\nimport _ \"unsafe\" // for go:linkname\n",
 	"package p\nimport", "package p\nimport \"fmt\nfunc f() { fmt.P() }\n", "package p\nimport 'a'\nfunc f() { a.P() }\n", "package p\nimport a\nfunc f() { a.P() }\n", "package p\nimport \"\\z\"\nfunc f() { z.P() }\n",
+	// an import declaration after another declaration is kept by the parser (with an error): a broken path literal there
+	"package p\n\nvar x = 1\n\nimport fmt\n\nfunc f() { fmt.P() }\n", "package p\n\nfunc g() {}\n\nimport 5\n", "package p\n\ntype T int\n\nimport \"a\\qb\"\n\nvar y = 2\n",
+	"package p\n\nimport \"os\"\n\nvar x = os.Args\n\nimport (\n\t\"fmt\n)\n",
 	"\xef\xbb\xbfpackage a\n", "package a\r\n\r\nfunc f() {}\r\n", "package a\n\nfunc f() { goto }\n", "package a\n\nvar = \n", "package a\n\ntype T struct { x }}}}\n",
 }
 
